@@ -6,13 +6,17 @@ CFG = dict(
     props_files=["ElysModel/Props/C19.lean"],
     runs=[dict(mode="c19", n_quick=60, n_thorough=400, shards_quick=6, shards_thorough=14)],
     rule="the same genesis bytes and the same blocks (identical signed tx bytes and block times from the history grammar, 1-4 txs per block, time gaps up to 30 h so epochs roll, "
-         "the burner configured so that its map-ordered loop sees several denoms) fed to three replicas of the real app: two in memory, one on goleveldb closed and reopened after "
-         "every committed block; an evaluation is one block; non-trivial = distinct block lines",
-    trusted_base=COMMON_TB + ["replicas run in one process: Go randomises the start of every map iteration, so instances already differ; scheduling and wall-clock effects are only sampled"],
-    assumptions=["partial: the Lean theorems cover the burner loop's order-independence and the restart simulation of the store discipline; goroutine timing, wall-clock reads inside "
+         "the burner configured so that its map-ordered loop sees several denoms; every 9 blocks an exact-out swap of exactly half a reserve - refused by its own limit half of "
+         "the time - and a swap of 1.5 reserves on the unequal-weight pool) fed to four replicas of the real app: two in memory, one on goleveldb closed and reopened after every "
+         "committed block, one on goleveldb that is opened, run for one block and exited by a FRESH OS PROCESS per block; an evaluation is one block; non-trivial = distinct block lines",
+    trusted_base=COMMON_TB + ["three replicas run in one process (Go randomises the start of every map iteration, so instances already differ) and share its package-level memory; the fourth "
+                              "shares nothing but the database; scheduling and wall-clock effects are only sampled"],
+    assumptions=["partial: the Lean theorems cover the burner loop's order-independence, the restart simulation of the store discipline and the soundness of the fresh-process "
+                 "replica as a detector of blocks that read process memory; goroutine timing, wall-clock reads inside "
                  "dependencies and the Go runtime cannot be modelled and are only exercised by the replica runs (tests)",
                  "the static table of map ranges / keeper-memory writes (DESIGN 3.2 Gen/MapRanges) is not built"],
     explanation="PARTIAL (level other). Lean: the one consensus-path range over a Go map gives the same supply for every permutation of the entries; a restart after a committed block "
-                "is indistinguishable for later blocks when blocks read persistent and transient stores only. Behavioural: three replicas (one restarted from disk after every block) must "
-                "agree on app hash, tx codes and gas at every height; the restarted replica must reload the same height and commit id.",
+                "is indistinguishable for later blocks when blocks read persistent and transient stores only; if no block's result depends on process memory the node that never stops and "
+                "the node that runs every block in a fresh process agree after every history, so a disagreement proves a read of process memory (witness: a shared constant overwritten "
+                "in place). Behavioural: four replicas must agree on app hash, tx codes and gas at every height; the restarted replica must reload the same height and commit id.",
 )
